@@ -24,7 +24,7 @@ def main():
             if os.path.exists(os.path.join(d, fn)):
                 shutil.copy(os.path.join(d, fn), os.path.join(dst, fn))
         notes = open(os.path.join(dst, 'notes.md')).read() if os.path.exists(os.path.join(dst, 'notes.md')) else ''
-        meta = {'property': prop, 'origin': 'independent sub-agent given only the property text and a scratch worktree' + (' (round 2: told which mechanisms round 1 had used)' if offset else ''),
+        meta = {'property': prop, 'origin': 'independent sub-agent given only the property text and a scratch worktree' + ((f' (round {offset // 3 + 1}: told which mechanisms the earlier rounds had used)' if offset else '')),
                 'needs_to_manifest': notes.strip()[:1500], 'checks_expected': [prop] + extra}
         with open(os.path.join(dst, 'meta.json'), 'w') as f:
             json.dump(meta, f, indent=1)
